@@ -201,8 +201,23 @@ def atlas_override_docs():
     return [("overrides", doc(paths), {"content_type_overrides": dict(OVERRIDES)})]
 
 
+def path_defaults_doc():
+    """path parameters are positional: every arrangement of schema defaults over two / three path parameters (a default BEFORE a
+    parameter without one was a SyntaxError before repair b9d7aba: fixed finding path_default_before_required), with and without
+    keyword parameters behind them"""
+    paths = {}
+    S, D = {"type": "string"}, {"type": "string", "default": "dflt"}
+    for i, flags in enumerate([(0, 0), (0, 1), (1, 1), (1, 0), (0, 1, 1), (0, 1, 0), (1, 0, 1)]):
+        seg = "".join("/{p%d}/s%d" % (j, j) for j in range(len(flags)))
+        ps = [P("p%d" % j, "path", D if f else S) for j, f in enumerate(flags)]
+        paths[f"/pd{i}{seg}"] = {"get": op(f"pd{i}_bare", list(ps)), "post": op(f"pd{i}_kw", ps + [P("q", "query", S, False), P("r", "query", S, True)])}
+    paths["/api/{api-version}/widgets/{widget_id}"] = {"get": op("renamed_default_first", [P("api-version", "path", {"type": "string", "default": "v1"}), P("widget_id", "path", {"type": "integer"}),
+                                                                                             P("verbose", "query", {"type": "boolean"}, False)])}
+    return doc(paths)
+
+
 def atlas_docs():
-    return atlas_param_docs() + atlas_path_docs() + atlas_body_docs() + atlas_response_docs()
+    return [("path_defaults", path_defaults_doc())] + atlas_param_docs() + atlas_path_docs() + atlas_body_docs() + atlas_response_docs()
 
 
 # ------------------------------------------------------------------ random operations
